@@ -32,6 +32,19 @@ class Tied(nn.Module):
         return self.out(torch.tanh(self.lin(torch.tanh(self.lin(x)))))
 
 
+class TiedEmb(nn.Module):
+    """classic weight tying: the decoder owns no parameter of its own, its weight IS the embedding matrix"""
+
+    def __init__(self, V, d):
+        super().__init__()
+        self.emb = nn.Embedding(V, d)
+        self.dec = nn.Linear(d, V, bias=False)
+        self.dec.weight = self.emb.weight
+
+    def forward(self, x):
+        return self.dec(self.emb(x).mean(dim=1))
+
+
 class EmbNet(nn.Module):
     def __init__(self, V, d, pad, o):
         super().__init__()
@@ -110,6 +123,9 @@ def build(c, g):
     elif t == 'bag':
         m = BagNet(a['V'], a['d'], a['o'], a['mode'])
         shape = None
+    elif t == 'tied_emb':
+        m = TiedEmb(a['V'], a['d'])
+        shape = None
     elif t == 'rnn':
         m = RnnNet(a['kind'], a['D'], a['H'], a['layers'], a['bidir'], a['bf'], a['o'], a['packed'])
         bd = 0 if a['bf'] else 1
@@ -130,7 +146,7 @@ def build(c, g):
         dict(m.named_parameters())[name].requires_grad_(False)
 
     def make(B):
-        if t in ('emb', 'bag'):
+        if t in ('emb', 'bag', 'tied_emb'):
             x = torch.randint(0, a['V'], (B, a['n']), generator=g)
             if t == 'emb' and a['pad'] is not None and B > 0:
                 x[:, -1] = a['pad']          # the padding index really occurs
@@ -186,6 +202,12 @@ def run_case(c):
         try:
             gsm = wrap(m, c['mode'], bd == 0, c['red'])
             gsm.train()
+            if c.get('pre_B'):
+                # an earlier forward/backward of ANOTHER batch size on the same wrapped module, then cleared: nothing of it may survive
+                pa = make(c['pre_B'])
+                po = gsm(*pa)
+                (po * torch.randn(po.shape, generator=g)).sum().backward()
+                gsm.zero_grad()
             o = gsm(*args)
         except Exception as e:
             out['accepted'] = False
